@@ -35,6 +35,10 @@ def build_tree(e, rng, root, outside):
     mk("acq/.dotdir/d.dat", b"d"); t["acq/.dotdir/d.dat"] = "regular"       # dot *directory*, ordinary file name
     mk("acq/locked.dat", b"l"); mk("acq/.locked.dat.lock", b""); t["acq/locked.dat"] = "locked"; t["acq/.locked.dat.lock"] = "dot"
     mk("acq/.a.dat.placeholder", b""); t["acq/.a.dat.placeholder"] = "dot"
+    # the same kinds of temporaries next to a file *nested* below its acquisition directory
+    mk("acq/sub/.b.dat.placeholder", b""); t["acq/sub/.b.dat.placeholder"] = "dot"
+    mk("acq/deep/er/.c.dat.lock", b""); t["acq/deep/er/.c.dat.lock"] = "dot"; t["acq/deep/er/c.dat"] = "locked"
+    mk("acq/sub/.hidden2", b"hh"); t["acq/sub/.hidden2"] = "dot"
     os.symlink(os.path.join(root, "acq/a.dat"), os.path.join(root, "acq/link.dat")); t["acq/link.dat"] = "symlink"
     os.symlink(os.path.join(outside, "secret.dat"), os.path.join(root, "acq/out.dat")); t["acq/out.dat"] = "symlink"
     os.makedirs(os.path.join(root, "acq/adir"), exist_ok=True); t["acq/adir"] = "dir"
@@ -233,10 +237,17 @@ def stage_race(ctx, e):
         state = {"cur": None, "done": [False] * nw, "exc": [None] * nw}
         tids = {}
 
+        dbobj = db.database_proxy.obj
+
         def hook(sql, params, idx):
             me = tids.get(threading.get_ident())
             if me is None:
                 return
+            try:
+                if dbobj.in_transaction():
+                    return          # transactions are serialised by the database: no scheduling point inside one
+            except Exception:
+                pass
             main.release()
             sems[me].acquire()
         schedule = []
